@@ -5,7 +5,8 @@
   that the model-side equalities are executed on every scenario and not only proved:
     "ledger": {"evs":[{"session","delta","gain","sum_all","sum_interval"}], "peak_spec", "sum_delivered",
                "integral", "vacant_nonzero"}
-  With `"rerun"` in the request: two simulations over the same EV objects (see `handle`).
+  With `"rerun"` in the request: two simulations over the same EV objects; with `"resume"`: `run()` called again
+  after it raised (see `handle`).
 -/
 import AcnModel.WireSim
 import AcnModel.Rerun
@@ -40,13 +41,40 @@ def ledgerJson (cfg : Sim.Cfg Float) (s : Sim.State Float) : Json :=
 def answer (cfg : Sim.Cfg Float) (r : Sim.State Float × Option Err) : Json :=
   (jResult cfg r).setObjVal! "ledger" (ledgerJson cfg r.1)
 
+/-- `run()` called again after it raised, once per scheduler of `scheds` and only while the last call raised -/
+def resumeChain (cfg : Sim.Cfg Float) (fuel : Nat) :
+    List (View Float → Except Err (Schedule Float)) → Sim.State Float × Option Err →
+    List (Sim.State Float × Option Err) → (Sim.State Float × Option Err) × List (Sim.State Float × Option Err)
+  | [], r, acc => (r, acc)
+  | sch :: rest, r, acc =>
+    match r.2 with
+    | none => (r, acc)
+    | some _ => resumeChain cfg fuel rest (Sim.run cfg sch fuel r.1) (acc ++ [r])
+
 /-- optional `"rerun": {"sched": <sched>}`: when the first run completes, the same EVs go through `EV.reset()`
     and a second simulation (`AcnModel/Rerun.lean`); the answer then describes run 2 and carries run 1 under
-    `"run1"` -/
+    `"run1"`.
+    optional `"resume": <sched> | [<sched>, …]`: when `run()` raises it is called again from the state it left, with the
+    next scheduler of the list, as long as the previous call raised (crash / resume, as `drv_C01`; the in-place and
+    the JSON resume of the implementation are both compared with this — C09: the round trip is the identity).  The
+    answer describes the last call (with the ledger sums of ITS final state) and carries the aborted calls under
+    `"first"` (the first one, as `drv_C01`) and `"aborted"` (all of them, in order). -/
 def handle (j : Json) : Except String Json := do
   let cfg ← parseSimCfg j
   let sched ← parseSched (← j.getObjVal? "sched")
   let r := Sim.run cfg sched (fuelFor cfg.core) (Sim.init cfg)
+  match j.getObjVal? "resume" with
+  | .ok rj =>
+    let scheds ← match rj with
+      | Json.arr a => a.toList.mapM parseSched
+      | _ => do pure [← parseSched rj]
+    let (r2, aborted) := resumeChain cfg (fuelFor cfg.core) scheds r []
+    match aborted with
+    | [] => pure (answer cfg r2)
+    | f :: _ =>
+      pure (((answer cfg r2).setObjVal! "first" (jResult cfg f)).setObjVal! "aborted"
+        (Json.arr (aborted.map (answer cfg)).toArray))
+  | .error _ =>
   match j.getObjVal? "rerun" with
   | .error _ => pure (answer cfg r)
   | .ok rr =>
